@@ -76,10 +76,12 @@ def c03(tier, seed):
 
 def c04(tier, seed):
     c = Check("C04", tier, seed)
-    c.rule = "every Hal::share/unshare of every scenario is an event matched against the ledger guards (fresh address, true range, role direction, access_platform, exactly once); output-buffer digests before/after each pop"
+    c.rule = "every Hal::share/unshare of every scenario is an event matched against the ledger guards (fresh address, true range, role direction, access_platform, exactly once); output-buffer digests before/after each pop; the same for every queue of every driver in the usage scenarios of the device families (all transports, bouncing and in-place platform)"
     c.assumptions = VQ_ASSUME
     mc(c, ["VQ_n2_indirect", "VQ_n2_direct_ev"], tier)
     vq_family(c, tier, seed + 303, ["random"])
+    # the ledger is the platform's: the drivers' own submissions and completions count as well
+    usage_queues(c, tier, seed)
     return c.finish()
 
 
@@ -140,6 +142,29 @@ def c06(tier, seed):
     return c.finish()
 
 
+def usage_queues(c, tier, seed, net_frames=False):
+    """Every driver used (device families of C14-C20, standard-following device, all transports,
+    feature sets offering none / one / both of INDIRECT_DESC and EVENT_IDX): each queue's trace is
+    validated against VirtQueue.tla with the negotiated bits as its configuration."""
+    for fam in ("blk", "console", "net", "vsock", "evq", "cmd"):
+        out = os.path.join(WORK, c.pid, f"use-{fam}.ndjson")
+        idx = run_harness(fam, out, seed + 3, tier)
+        qv = validate_traces("VirtQueueTrace", "VirtQueueTrace.cfg", out + ".q.ndjson", {"scenarios": []})
+        qv["scenarios"] = len(idx["scenarios"])
+        c.add_validation(qv, "use-" + fam + "/queues")
+        if fam == "net" and net_frames:
+            # "the network header has its 12-byte modern form exactly when VERSION_1 was negotiated"
+            # - every pairing of transport generation and offered VERSION_1 bit, frames decoded by
+            # the reference device with the header length the negotiated features imply (Net.tla)
+            nv = validate_traces("NetTrace", "NetTrace.cfg", out, idx, max_events=600)
+            nv["scenarios"] = 0
+            c.add_validation(nv, "use-net/frames")
+        if not c.violations:
+            for f in (out, out + ".q.ndjson"):
+                if os.path.exists(f):
+                    os.remove(f)
+
+
 def c07(tier, seed):
     c = Check("C07", tier, seed)
     c.rule = ("MC (VirtQueueMC, Adversary=TRUE): the transcribed add/pop/recycle code against a device that writes ANY used element (ids of other chains, free descriptors, out of range) and ANY used index, queue size 2, direct / event-idx (indirect in the thorough tier): descriptor exclusivity, free-list exactness, ledger and never-blocked invariants; negative configuration (no token check) must fail. "
@@ -191,23 +216,7 @@ def c08(tier, seed):
     # "thereafter": every driver is used (device families of C14-C20) under feature sets offering
     # none / exactly one / both of INDIRECT_DESC and EVENT_IDX; what the reference device sees in
     # each queue is validated with the *negotiated* bits as the queue's configuration
-    for fam, extra in (("blk", ()), ("console", ()), ("net", ()), ("vsock", ()), ("evq", ()), ("cmd", ())):
-        out = os.path.join(WORK, c.pid, f"use-{fam}.ndjson")
-        idx = run_harness(fam, out, seed + 3, tier, list(extra))
-        qv = validate_traces("VirtQueueTrace", "VirtQueueTrace.cfg", out + ".q.ndjson", {"scenarios": []})
-        qv["scenarios"] = len(idx["scenarios"])
-        c.add_validation(qv, "use-" + fam + "/queues")
-        if fam == "net":
-            # "the network header has its 12-byte modern form exactly when VERSION_1 was negotiated"
-            # - every pairing of transport generation and offered VERSION_1 bit, frames decoded by
-            # the reference device with the header length the negotiated features imply (Net.tla)
-            nv = validate_traces("NetTrace", "NetTrace.cfg", out, idx, max_events=600)
-            nv["scenarios"] = 0
-            c.add_validation(nv, "use-net/frames")
-        if not c.violations:
-            for f in (out, out + ".q.ndjson"):
-                if os.path.exists(f):
-                    os.remove(f)
+    usage_queues(c, tier, seed, net_frames=True)
     return c.finish()
 
 
